@@ -135,9 +135,10 @@ theorem C13_eager_and_traps :
     eval false (.bin .lor (.lit false 1) (.bin .mod (.lit false 1) (.lit false 0))) = .trap := by
   decide
 
-/-- On the class `S64` (arithmetic, bitwise, relational operators and unary + - ~ applied to 64-bit integer
-    operands only — bool-typed results feed `!`, `&&`, `||`, `?:` only —, no shifts, both arms of `?:` of the
-    same kind and signedness) OCCA's evaluator with the repairs F60 (intmax_t/uintmax_t literals) and F18
+/-- On the class `S64` (unary + - ~ applied to 64-bit integer operands; arithmetic, bitwise and relational
+    operators with at least one 64-bit integer operand, the other may be a bool-typed result like `a < b`;
+    bool-typed results otherwise feed `!`, `&&`, `||`, `?:`; no shifts; both arms of `?:` of the same kind and
+    signedness) OCCA's evaluator with the repairs F60 (intmax_t/uintmax_t literals) and F18
     (short-circuit) computes exactly what C computes: whenever C gives the expression a value (no signed
     overflow, no division by zero in an EVALUATED operand), `evaluate()` does not crash and returns that
     value; hence the `#if` takes the same branch.  Outside the class the counter-examples are the recorded
@@ -148,6 +149,9 @@ theorem C13_eval_agrees_with_C (e : Expr) (hs : S64 e = true) (c : CVal) (hc : e
   refine ⟨⟨p, hp, hv⟩, ?_⟩
   simp only [evalCR, evalCCR, hp, hc, PVal.truth, hv]
   by_cases h0 : c.v = 0 <;> simp [h0]
+
+example : S64 (.bin .eq (.bin .add (.bin .lt (.lit false 1) (.lit false 2)) (.lit true 1)) (.lit false 2)) = true := by
+  decide
 
 example : S64 (.bin .land (.bin .gt (.bin .add (.lit false 2147483647) (.lit false 1)) (.lit false 0))
                           (.un .not (.bin .div (.lit true 7) (.lit false 2)))) = true := by decide
